@@ -24,14 +24,13 @@ Proof.
   - destruct (existsb is_panic (fmt_prog true p)); discriminate.
   - destruct (existsb is_panic (fmt_prog true p)); [discriminate|].
     destruct (String.eqb (o_text ob) (render (fmt_prog true p))) eqn:Ht; cbn [negb]; [|discriminate].
-    destruct (String.eqb (render (fmt_prog true p)) (render (fmt_prog false p))) eqn:Hc.
-    + destruct (all_good ob) eqn:Hg; [|discriminate]. intros _.
-      apply all_good_spec in Hg. split; [exists ob; tauto|].
-      intros _. exists ob. split; [reflexivity|].
-      apply String.eqb_eq in Ht, Hc. congruence.
-    + destruct (all_good ob) eqn:Hg.
-      * intros H. injection H as <-. apply all_good_spec in Hg. split; [exists ob; tauto|]. discriminate.
-      * destruct (class_of p); discriminate.
+    destruct (all_good ob) eqn:Hg.
+    + apply all_good_spec in Hg.
+      destruct (String.eqb (render (fmt_prog true p)) (render (fmt_prog false p))) eqn:Hc; intros H; injection H as <-.
+      * split; [exists ob; tauto|]. intros _. exists ob. split; [reflexivity|].
+        apply String.eqb_eq in Ht, Hc. congruence.
+      * split; [exists ob; tauto|]. discriminate.
+    + destruct (class_of p); discriminate.
 Qed.
 
 Lemma judge_diff_sound cls o tag : judge_diff cls o = v_ok tag -> observed_roundtrip o.
